@@ -223,7 +223,11 @@ add("C18", "other",
     "slice are the flattening of A's activations, the frame-pointer list their bounds, the rest junk no read sees) that on every "
     "legal history of push, pop, frame push/pop of any width and depth, variable write/read, return-address read/write, globals "
     "and clones into fresh or recycled memories, G shows exactly A's values and never aborts "
-    "(C18_go_memory_refines_activations). The closure-alias operations are outside that theorem (K1 lives there). Decided each run: ~300 generated histories (nested calls with frame "
+    "(C18_go_memory_refines_activations); MemClosure.v/MemAlias.v extend the simulation to all sixteen operations, the "
+    "closure-alias ones included (capture of the top frame as an alias into the stack slice, copy of a captured frame, closure "
+    "stack, read of a captured variable): every alias with serial s points at the cells of A's activation s while it is live, "
+    "serials never repeat (C18_go_memory_refines_activations_full). G's alias reads follow the current slice; the real Go alias "
+    "keeps the array it was cut from, which differs after a reallocation (K1, flagged stale by G, not exhibitable by a list model). Decided each run: ~300 generated histories (nested calls with frame "
     "widths 0..1000 across the growth steps, depth up to 40/1000, random mixes, forked/recycled generator memories, captured "
     "frames) are replayed on the real memory.Type and compared read by read with A and G in Coq; wide-frame programs go through "
     "Sem and the VM model; recursion depth 10^5 (10^6 thorough) runs through the binary. K1 (stale captured frame after growth) is "
